@@ -6,6 +6,7 @@ committed file.
 import Driver.File
 import Jamm.Model.Commit
 import Jamm.Model.CommitPages
+import Jamm.Model.Overlay
 import Jamm.Gen.Params
 open Jamm
 
@@ -121,16 +122,6 @@ def findView (v : BucketView) : List Bytes → Option BucketView
     | some s => findView s.2 rest
     | none => none
 
-mutual
-/-- the tree with every leaf emptied (branch keys kept) -/
-def emptiedT : CTree → CTree
-  | .leaf p _ => .leaf p []
-  | .branch p kids => .branch p (emptiedF kids)
-def emptiedF : Forest Bytes Ent → Forest Bytes Ent
-  | .nil => .nil
-  | .cons k t rest => .cons k (emptiedT t) (emptiedF rest)
-end
-
 /-- length of the value a canonical value token stands for -/
 def valLen (v : Val) : Nat :=
   if v == "-" then 0
@@ -141,9 +132,11 @@ def valLen (v : Val) : Nat :=
 holds `items`: branch entries are not edited before commit, so every item sits in the leaf the model's
 `put` routes it to (the result does not depend on the order of the transaction's edits) -/
 def predictOverlay (t0 : CTree) (items : List ItemS) : CTree :=
-  items.foldl (fun t it => t.put it.1 (match it.2 with
+  -- `Tree.refill` = put every item into the emptied tree; `refill_eq_edits` (Proofs/OverlayLemmas.lean): this
+  -- is the tree the transaction's edits produce one by one, in whatever order they came
+  t0.refill (items.map (fun it => (it.1, match it.2 with
     | .val v => ({ vsize := valLen v, isBucket := false } : Ent)
-    | .bkt => { vsize := 0, isBucket := true })) (emptiedT t0)
+    | .bkt => { vsize := 0, isBucket := true })))
 
 /-- the model's prediction of the committed shape of one bucket -/
 def predictBucket (pagesize : Nat) (pre : CTree) (notes : List Note) (touched : List Bytes := []) : CTree :=
